@@ -27,7 +27,7 @@ type c11Req struct {
 	path    string
 	ctype   string // "" none
 	body    int    // 0 none, 1 body with Content-Length, 2 body of unknown length
-	cookie  int    // 0 none, 1 unknown, 2 expired, 3 valid, 4 valid and due for refresh
+	cookie  int    // 0 none, 1 unknown, 2 expired, 3 valid, 4 valid and due for refresh, 5 upper-case spelling of 3, 6 of 4
 	basic   int    // 0 none, 1 wrong, 2 right
 	tls     bool
 	badHost bool
@@ -48,8 +48,11 @@ type c11Chain struct {
 	wrap   func(h http.HandlerFunc) http.Handler // nil: through the real httpRegister
 }
 
-var c11Tokens = []string{"", "ffffffffffffffffffffffffffffffff", "00000000000000000000000000000001",
-	"00000000000000000000000000000002", "00000000000000000000000000000003"}
+// c11Tokens: the cookie values of the shapes (the keys of Auth.sessions are
+// the lower-case hex strings 2..4; 5 and 6 are other spellings of 3 and 4).
+var c11Tokens = []string{"", "ffffffffffffffffffffffffffffffff", "0a0b0c0d0e0f00000000000000000001",
+	"0a0b0c0d0e0f00000000000000000002", "0a0b0c0d0e0f00000000000000000003",
+	"0A0B0C0D0E0F00000000000000000002", "0a0B0c0D0e0F00000000000000000003"}
 
 func c11Wrappers(names ...string) string {
 	items := make([]string, len(names))
@@ -141,28 +144,19 @@ func c11EnvCoq(e c11Env, authPresent bool, now int64, ttl uint32) string {
 
 func c11STable(a *Auth) string {
 	if a == nil {
-		return vfList("N * (bytes * N)", nil)
+		return vfList("bytes * (bytes * N)", nil)
 	}
-	type row struct {
-		id int
-		s  *session
+	keys := make([]string, 0, len(a.sessions))
+	for k := range a.sessions {
+		keys = append(keys, k)
 	}
-	rows := []row{}
-	for k, s := range a.sessions {
-		id := 900
-		for i, t := range c11Tokens {
-			if t == k {
-				id = i
-			}
-		}
-		rows = append(rows, row{id, s})
+	sort.Strings(keys)
+	items := make([]string, len(keys))
+	for i, k := range keys {
+		r := a.sessions[k]
+		items[i] = vfPair(vfBytes(k), vfPair(vfBytes(r.userName), vfN(uint64(r.expire))))
 	}
-	sort.Slice(rows, func(i, j int) bool { return rows[i].id < rows[j].id })
-	items := make([]string, len(rows))
-	for i, r := range rows {
-		items[i] = vfPair(vfN(uint64(r.id)), vfPair(vfBytes(r.s.userName), vfN(uint64(r.s.expire))))
-	}
-	return vfList("N * (bytes * N)", items)
+	return vfList("bytes * (bytes * N)", items)
 }
 
 func c11Build(q c11Req) *http.Request {
@@ -212,11 +206,7 @@ func c11CoqReq(q c11Req, users bool) string {
 	}
 	cookie := "CNone"
 	if q.cookie > 0 {
-		id := q.cookie
-		if q.cookie == 1 {
-			id = 1000
-		}
-		cookie = vfApp("CTok", vfN(uint64(id)))
+		cookie = vfApp("CTok", vfBytes(c11Tokens[q.cookie]))
 	}
 	basic := "BNone"
 	if q.basic > 0 {
@@ -259,7 +249,7 @@ func (wd *c11World) probe(out *vfOut, c c11Chain, e c11Env, q c11Req) {
 	a := globalContext.auth
 	c12AlignSecond()
 	now := time.Now().Unix()
-	sessCoq, ttl := vfList("N * (bytes * N)", nil), uint32(0)
+	sessCoq, ttl := vfList("bytes * (bytes * N)", nil), uint32(0)
 	if a != nil {
 		sessCoq, ttl = wd.resetSessions(a, uint32(now)), a.sessionTTL
 	} else {
@@ -298,7 +288,7 @@ func (wd *c11World) probe(out *vfOut, c c11Chain, e c11Env, q c11Req) {
 	obs := fmt.Sprintf("{| C11.o_ran := %s; C11.o_status := %s; C11.o_loc := %s; C11.o_sess := %s |}",
 		vfBool(ran), vfZ(int64(status)), vfZ(loc), c11STable(a))
 	// the property, directly
-	authed := a != nil && (q.cookie >= 3 || (q.cookie == 0 && q.basic == 2))
+	authed := a != nil && (q.cookie == 3 || q.cookie == 4 || (q.cookie == 0 && q.basic == 2))
 	public := c11Public(q.path)
 	guardedChain := c.wrap == nil || c.name == "version.json" || c.name == "static"
 	monOK, msg, key := true, "", ""
@@ -334,6 +324,9 @@ func (wd *c11World) probe(out *vfOut, c c11Chain, e c11Env, q c11Req) {
 	}
 	if q.cookie == 2 {
 		classes = append(classes, "cookie-expired")
+	}
+	if q.cookie >= 5 {
+		classes = append(classes, "cookie-other-spelling")
 	}
 	if e.firstRun {
 		classes = append(classes, "first-run")
@@ -483,7 +476,7 @@ func (wd *c11World) boot(out *vfOut, users bool, db int, c c11Chain, q c11Req) {
 	envCoq := c11EnvCoq(e, a != nil, now, ttl)
 	obs := fmt.Sprintf("{| C11.o_ran := %s; C11.o_status := %s; C11.o_loc := %s; C11.o_sess := %s |}",
 		vfBool(ran), vfZ(int64(status)), vfZ(loc), c11STable(a))
-	authed := q.cookie >= 3 || (q.cookie == 0 && q.basic == 2)
+	authed := q.cookie == 3 || q.cookie == 4 || (q.cookie == 0 && q.basic == 2)
 	monOK, msg, key := true, "", ""
 	if panicked != nil {
 		monOK, msg, key = false, fmt.Sprintf("panic: %v", panicked), "c11-panic"
@@ -627,7 +620,7 @@ func TestVerifC11(t *testing.T) {
 		for _, m := range []string{c.method, "PATCH", map[string]string{"GET": "POST", "POST": "GET"}[c.method]} {
 			for _, ct := range ctypes[:3] {
 				for body := 0; body < 3; body++ {
-					for cookie := 0; cookie < 5; cookie++ {
+					for cookie := 0; cookie < 7; cookie++ {
 						for basic := 0; basic < 3; basic++ {
 							wd.probe(out, c, normal, c11Req{method: m, path: ctl, ctype: ct, body: body, cookie: cookie, basic: basic})
 						}
@@ -643,7 +636,7 @@ func TestVerifC11(t *testing.T) {
 			m = "GET"
 		}
 		for _, e := range []c11Env{normal, {users: false}, {users: true, firstRun: true}, {users: true, https: 1}, {users: true, https: 2}, {firstRun: true}, {noAuth: true}, {noAuth: true, https: 2}} {
-			for cookie := 0; cookie < 5; cookie++ {
+			for cookie := 0; cookie < 7; cookie++ {
 				for basic := 0; basic < 3; basic++ {
 					q := c11Req{method: m, path: ctl, cookie: cookie, basic: basic}
 					if m != "GET" {
@@ -660,7 +653,7 @@ func TestVerifC11(t *testing.T) {
 		"/assets/a/b.js", "/assets", "/assetsx/a", "/install.html", "/install.x", "/control/status", "/Login.html", "/assets/..", "/login.html%2f", ""}
 	for _, p := range paths {
 		for _, e := range []c11Env{normal, {users: false}, {users: true, firstRun: true}, {users: true, https: 2}} {
-			for _, cookie := range []int{0, 1, 2, 3} {
+			for _, cookie := range []int{0, 1, 2, 3, 5} {
 				wd.probe(out, static, e, c11Req{method: "GET", path: p, cookie: cookie})
 			}
 			wd.probe(out, static, e, c11Req{method: "GET", path: p, basic: 1})
@@ -694,7 +687,7 @@ func TestVerifC11(t *testing.T) {
 	for i := 0; i < n; i++ {
 		c := chains[rnd.Intn(len(chains))]
 		e := c11Env{users: !rnd.Chance(1, 8), firstRun: rnd.Chance(1, 10), https: vfPick(rnd, []int{0, 0, 0, 1, 2}), noAuth: rnd.Chance(1, 25)}
-		q := c11Req{method: vfPick(rnd, methods), path: ctl, ctype: vfPick(rnd, ctypes), body: rnd.Intn(3), cookie: rnd.Intn(5),
+		q := c11Req{method: vfPick(rnd, methods), path: ctl, ctype: vfPick(rnd, ctypes), body: rnd.Intn(3), cookie: rnd.Intn(7),
 			basic: rnd.Intn(3), tls: rnd.Chance(1, 4), badHost: rnd.Chance(1, 20)}
 		if c.method != "" && rnd.Chance(2, 3) {
 			q.method = c.method
@@ -748,7 +741,7 @@ func TestVerifC11(t *testing.T) {
 	routes := c11LoadRoutes(t)
 	wd.setEnv(normal)
 	wd.resetSessions(wd.auth, uint32(time.Now().Unix()))
-	noCred := []c11Req{{}, {cookie: 1}, {cookie: 2}, {basic: 1}, {cookie: 1, basic: 2}}
+	noCred := []c11Req{{}, {cookie: 1}, {cookie: 2}, {basic: 1}, {cookie: 1, basic: 2}, {cookie: 5}}
 	// (1) the registrations of package home, made by the real functions on a fresh mux
 	globalContext.mux = http.NewServeMux()
 	called := []string{}
